@@ -12,6 +12,7 @@ import (
 	macaroon "gopkg.in/macaroon.v2"
 
 	"verifharness/sim"
+	"verifharness/world"
 )
 
 type issued struct {
@@ -40,6 +41,37 @@ func body(r *sim.Run) {
 	secrets := make([][]byte, nsec)
 	for i := range secrets {
 		secrets[i] = []byte(fmt.Sprintf("secret-%d-%x", i, t.Intn(1<<16)))
+	}
+	// Different servers' secrets are often related: a 64-byte ed25519 private
+	// key, and near misses of another secret (one more byte, one byte fewer,
+	// a byte changed near the start, in the middle, at the very end).
+	if t.Chance(500) {
+		base := world.CompactBytes(t, "token-secret", sim.Pick(t, []int{16, 32, 33, 48, 64}))
+		secrets[0] = base
+		for i := 1; i < nsec; i++ {
+			v := append([]byte{}, base...)
+			switch t.Intn(5) {
+			case 0:
+				v = append(v, byte('x'))
+			case 1:
+				v = v[:len(v)-1]
+			case 2:
+				v[0] ^= 1
+			case 3:
+				v[len(v)/2] ^= 0x80
+			case 4:
+				v[len(v)-1] ^= 1
+			}
+			// the secrets of one run must be pairwise different
+			for j := 0; j < i; j++ {
+				if string(secrets[j]) == string(v) {
+					v = append(v, byte('0'+i))
+					j = -1
+				}
+			}
+			secrets[i] = v
+		}
+		r.Probe("related_secrets")
 	}
 	servers := []string{"a.example", "b.example", "a.example"}
 	// user IDs are case-sensitive: include pairs that differ only in case
